@@ -1,8 +1,8 @@
 (* C08/Props.v — the property theorems, nothing else.
-   Model: C08/Model.v.  Proofs: Frame.v, PassA.v, PassB.v, PassC.v, PassD.v, PassE.v, Chunk.v, Live.v, Live2.v, Live3.v. *)
+   Model: C08/Model.v.  Proofs: Frame.v, PassA.v, PassB.v, PassC.v, PassD.v, PassE.v, PassF.v, Chunk.v, Live.v, Live2.v, Live3.v. *)
 From Coq Require Import List NArith ZArith Bool.
 Import ListNotations.
-Require Import Base.Wire Base.PyStr C08.Model C08.Frame C08.PassA C08.PassB C08.PassC C08.PassD C08.PassE C08.Chunk C08.Live C08.Live2 C08.Live3.
+Require Import Base.Wire Base.PyStr C08.Model C08.Frame C08.PassA C08.PassB C08.PassC C08.PassD C08.PassE C08.PassF C08.Chunk C08.Live C08.Live2 C08.Live3.
 
 (* For every configuration, every state satisfying the invariant (in particular
    the state right after a reset) and EVERY sequence of server messages
@@ -58,6 +58,34 @@ Theorem C08_del_unacked_not_requested :
      (GReq [s_label] [[98;97;116;99;104]; s_label] [[98;97;116;99;104]], [[98;97;116;99;104]; s_label])].
 Proof. exact del_unacked_not_requested. Qed.
 Print Assumptions C08_del_unacked_not_requested.
+
+(* "credentials only after the server acknowledged sasl", against the SERVER's
+   own books: [upd_ack m a] is what the server has acknowledged on this
+   connection after its message m (CAP ACK adds the names, a driver reset starts
+   over).  For every configuration and every message sequence: the bot's
+   capabilities_ack only ever holds capabilities the server acknowledged (AckI)
+   -- requesting a capability, or having it NAKed, never makes it acknowledged
+   -- and every credential chunk (SendCred, whose flag is always true:
+   C08_registration_safety) is sent with 'sasl' in the server's set. *)
+Theorem C08_ack_by_server :
+  forall c ms s a, AckI a s ->
+  let r := run_tag_ack c s a ms in
+  AckI (snd (fst r)) (fst (fst r)) /\ Forall (fun oa => OutF (snd oa) (fst oa)) (snd r).
+Proof. exact run_ack. Qed.
+Print Assumptions C08_ack_by_server.
+
+(* run_tag_ack's outputs are those of run_msgs; every connection starts with nothing acknowledged;
+   and a NAKed request is not an acknowledgement (LS sasl batch / NAK batch sasl / AUTHENTICATE +: no credentials) *)
+Theorem C08_ack_by_server_start :
+  (forall c ms s a, map fst (snd (run_tag_ack c s a ms)) = snd (run_msgs c s ms)) /\
+  (forall c s, AckI [] (rstate (reset c s))) /\
+  (let c := Cfg [s_sasl; [98;97;116;99;104]] false [s_plain] [[65;65;65;65]] [] None false false true [104] 3 in
+   let ms := [ICap [[42]; s_LS; s_sasl ++ [32] ++ [98;97;116;99;104]]; ICap [[42]; [78;65;75]; [98;97;116;99;104] ++ [32] ++ s_sasl];
+              IAuth [s_PLUS] true true] in
+   let r := run_msgs c (rstate (reset c (fresh c false))) ms in
+   ack (fst r) = [] /\ existsb (fun o => match o with SendCred _ _ => true | _ => false end) (snd r) = false).
+Proof. split; [intros; apply run_tag_ack_outs|split; [intros c s; exact (proj1 (f_reset c [] s))|exact nak_is_not_ack]]. Qed.
+Print Assumptions C08_ack_by_server_start.
 
 (* the state after any reset satisfies the invariant: the theorem above applies
    to every connection *)
